@@ -157,6 +157,7 @@ fn step(ctx: &Ctx, st: &RState, op: &ROp, nm: &Names, shared: &Shared) -> StepOu
         Contract(Result<(), ()>),
         NoEffect,
         Migrate(Result<(), ()>),
+        NotAsserted,
     }
     let exp = match op {
         ROp::Store | ROp::StoreCreator(_) => Exp::Code(Ok(max_id + 1)),
@@ -172,7 +173,12 @@ fn step(ctx: &Ctx, st: &RState, op: &ROp, nm: &Names, shared: &Shared) -> StepOu
         ROp::RolledBackInst { .. } => Exp::NoEffect,
         ROp::Migrate { code } => {
             let first = model.order.first().and_then(|a| model.contracts.get(a));
-            Exp::Migrate(if first.map_or(false, |c| c.admin.is_some()) && model.codes.contains_key(code) { Ok(()) } else { Err(()) })
+            match first {
+                // who may migrate a contract without admin is C12's business: outcome not asserted here
+                Some(c) if c.admin.is_none() => Exp::NotAsserted,
+                Some(_) => Exp::Migrate(if model.codes.contains_key(code) { Ok(()) } else { Err(()) }),
+                None => Exp::Migrate(Err(())),
+            }
         }
         ROp::CodeInfoOnly => Exp::NoEffect,
     };
@@ -330,6 +336,19 @@ fn step(ctx: &Ctx, st: &RState, op: &ROp, nm: &Names, shared: &Shared) -> StepOu
             ctx.violation(&format!("c11:invalid-instantiate-accepted:{}", op_kind(op)), case("instantiate that must fail (unknown code / failing init / repeated salted address) succeeded", json!({"address": new_addr})));
             return StepOut { next: None, evals };
         }
+        (Exp::NotAsserted, r) => {
+            if r.is_err() && !unchanged(&app) {
+                ctx.violation(&format!("c11:rejected-op-changed-state:{}", op_kind(op)), case("operation was rejected but registry or raw storage changed", json!({})));
+            }
+            if r.is_ok() {
+                // follow the implementation's decision
+                if let ROp::Migrate { code } = op {
+                    if let Some(first) = model.order.first().cloned() {
+                        model.contracts.get_mut(&first).unwrap().code_id = *code;
+                    }
+                }
+            }
+        }
         (Exp::NoEffect, r) => {
             if matches!(op, ROp::RolledBackInst { .. }) {
                 if r.is_ok() {
@@ -457,10 +476,20 @@ pub fn alphabet(tier: Tier) -> Vec<ROp> {
 }
 
 pub fn run_c11(ctx: &Ctx) -> i32 {
+    let (coverage, assumptions) = explore_registry(ctx, ctx.tier.pick(4, 6));
+    ctx.finish(coverage, assumptions)
+}
+
+/// The registry exploration; when run on behalf of C19 (`ctx.id == "C19"`) only the replay
+/// validation (state reached through snapshots = state reached from genesis) is reported.
+pub fn explore_registry(ctx: &Ctx, max_depth: usize) -> (Value, Vec<String>) {
+    let quiet = Ctx::new("C11", ctx.tier);
+    let real_ctx = ctx;
+    let ctx: &Ctx = if real_ctx.id == "C19" { &quiet } else { real_ctx };
+    let replay_mismatch = std::sync::atomic::AtomicU64::new(0);
     let nm = names();
     set_watch(Watch::default());
     let alpha = alphabet(ctx.tier);
-    let max_depth = ctx.tier.pick(4, 6);
     let shared = Shared { salted: Mutex::new(BTreeMap::new()), salted_rev: Mutex::new(BTreeMap::new()) };
     let root = RState { reg_ops: vec![], storage: SnapStorage::new(), model: RModel::default(), path: vec![] };
     let key = |s: &RState| hash128(&(&s.model, &s.storage.data));
@@ -533,7 +562,10 @@ pub fn run_c11(ctx: &Ctx) -> i32 {
                     }
                     n += 1;
                     if cur.storage.data != s.storage.data || cur.model != s.model {
-                        ctx.violation("c11:replay-from-genesis-differs", json!({"engine": "registry", "history": s.path.iter().map(op_json).collect::<Vec<_>>()}));
+                        replay_mismatch.fetch_add(1, std::sync::atomic::Ordering::Relaxed);
+                        if real_ctx.id == "C19" {
+                            real_ctx.violation("c19:replay-from-genesis-differs-from-snapshot-derived-state:registry", json!({"engine": "registry", "history": s.path.iter().map(op_json).collect::<Vec<_>>()}));
+                        }
                     }
                 }
                 n
@@ -563,10 +595,11 @@ pub fn run_c11(ctx: &Ctx) -> i32 {
         "operations": alpha.len(),
         "alphabet": alpha.iter().map(op_json).collect::<Vec<_>>(),
         "salted_address_table_entries": shared.salted.lock().unwrap().len(),
+        "replay_mismatches (hidden state; reported by C19)": replay_mismatch.load(std::sync::atomic::Ordering::Relaxed),
         "caps_hit": caps,
         "samples": samples,
     });
-    ctx.finish(coverage, vec!["whether an empty label is accepted is not asserted".into(), "code ids above 13 and store_code at u64::MAX are outside".into()])
+    (coverage, vec!["whether an empty label is accepted is not asserted".into(), "code ids above 13 and store_code at u64::MAX are outside".into(), "who may migrate a contract that has no admin is C12's business and not asserted here".into()])
 }
 
 pub fn replay_c11(ctx: &Ctx, case: &Value) {
